@@ -61,6 +61,23 @@ type mbReq struct {
 
 var mbQueries = []string{"", "?n=abc", "?name=x", "?n=abc&name=x", "?name=ok1&age=200", "?age=999", "?n=1.5&name=alice"}
 
+// mbBody / mbBodies: MustBind on a POSTed JSON body (MB = len(mbQueries) + index)
+type mbBody struct {
+	Name string `json:"name" validate:"required,min=3"`
+	Qty  int    `json:"qty" validate:"max=9"`
+}
+
+var mbBodies = []struct {
+	body   string
+	strict bool
+}{
+	{`{"name":"alice","extra":1}`, true}, // unknown field under WithStrict
+	{`{"name":"x","qty":50}`, false},     // validation
+	{`{"name":`, false},                  // malformed JSON
+	{`{"name":"bob","qty":"many"}`, true}, // wrong type
+	{`{"nam":"bob"}`, true},               // unknown field and a missing required one
+}
+
 type callT struct {
 	// MB (Kind mustbind): index into mbQueries — the handler calls c.MustBind(&req), which fails with whatever
 	// c.Bind returned (a binding error or a *validation.Error); the error tree is read off that value
@@ -424,6 +441,16 @@ func handlerAt(i int) app.HandlerFunc {
 			capMu.Unlock()
 			switch k.Call.Kind {
 			case "mustbind":
+				if j := k.Call.MB - len(mbQueries); j >= 0 {
+					var probe, req mbBody
+					var bo []app.BindOption
+					if mbBodies[j%len(mbBodies)].strict {
+						bo = append(bo, app.WithStrict())
+					}
+					sl.bindErr = c.Bind(&probe, bo...)
+					c.MustBind(&req, bo...)
+					break
+				}
 				var probe, req mbReq
 				sl.bindErr = c.Bind(&probe)
 				c.MustBind(&req)
@@ -533,6 +560,7 @@ func getApp(opts []optT, noCancel, prod bool) *builtApp {
 				after = append(after, handlerAt(2+nb+i))
 			}
 			a.GET(fmt.Sprintf("/f/%d/%d", n, nb), handlerAt(1+nb), app.WithBefore(before...), app.WithAfter(after...))
+			a.POST(fmt.Sprintf("/f/%d/%d", n, nb), handlerAt(1+nb), app.WithBefore(before...), app.WithAfter(after...))
 			a.GET(fmt.Sprintf("/t/%d/%d/:tail", n, nb), handlerAt(1+nb), app.WithBefore(before...), app.WithAfter(after...))
 		}
 	}
@@ -581,7 +609,10 @@ func (k acaseT) route() string {
 	if k.Call.Kind == "mustbind" {
 		kk := k
 		kk.Call.Kind = "fail"
-		return kk.route() + mbQueries[k.Call.MB%len(mbQueries)]
+		if k.Call.MB >= len(mbQueries) {
+			return kk.route()
+		}
+		return kk.route() + mbQueries[k.Call.MB]
 	}
 	nb := (k.Mask >> 8) % (k.Len - 1)
 	if k.Tail != "" {
@@ -599,9 +630,21 @@ func (k acaseT) path() string {
 	return fmt.Sprintf("/f/%d/%d", k.Len, nb)
 }
 
+// postBody, when set, makes the next serve call a POST with this JSON body (MustBind on a body)
+var postBody *string
+
 func serve(b *builtApp, wire, path string, accept *string, slot int) (status int, ctype string, body []byte, panicked bool) {
+	method, rd := http.MethodGet, io.Reader(nil)
+	if postBody != nil {
+		method, rd = http.MethodPost, strings.NewReader(*postBody)
+	}
+	ctJSON := postBody != nil
+	postBody = nil
 	if wire == "s" {
-		req, _ := http.NewRequest(http.MethodGet, b.server().URL+path, nil)
+		req, _ := http.NewRequest(method, b.server().URL+path, rd)
+		if ctJSON {
+			req.Header.Set("Content-Type", "application/json")
+		}
 		req.Header.Set("X-Slot", strconv.Itoa(slot))
 		if accept != nil {
 			req.Header.Set("Accept", *accept)
@@ -617,7 +660,10 @@ func serve(b *builtApp, wire, path string, accept *string, slot int) (status int
 		return resp.StatusCode, resp.Header.Get("Content-Type"), body, false
 	}
 	rec := httptest.NewRecorder()
-	req := httptest.NewRequest(http.MethodGet, path, nil)
+	req := httptest.NewRequest(method, path, rd)
+	if ctJSON {
+		req.Header.Set("Content-Type", "application/json")
+	}
 	req = req.WithContext(context.WithValue(req.Context(), slotKey{}, slot))
 	req.Header.Set("X-Slot", strconv.Itoa(slot))
 	if accept != nil {
@@ -688,6 +734,9 @@ func runA(k acaseT) (obsT, []string) {
 		serve(b, "r", "/no/such/route", k.Accept, 0)
 	}
 	arm(0, &k)
+	if j := k.Call.MB - len(mbQueries); k.Call.Kind == "mustbind" && j >= 0 {
+		postBody = &mbBodies[j%len(mbBodies)].body
+	}
 	st, ct, body, panicked := serve(b, k.Wire, k.route(), k.Accept, 0)
 	return observe(0, st, ct, body, panicked), answers
 }
@@ -985,6 +1034,9 @@ func encReal(l *hx.Line, err error, depth *int, caps *int, statuses map[int]bool
 var helperStatus = []int{404, 400, 401, 403, 409, 410, 422, 429, 500, 503}
 
 func emitA(id string, k acaseT, st *hx.Stats) string {
+	if k.Call.Kind == "mustbind" && k.Call.MB >= len(mbQueries) {
+		k.Tail = "" // the body cases use the plain routes (POST is registered there)
+	}
 	o, answers := runA(k)
 	return lineA(id, k, o, answers, st) + hx.Comment(caseT{A: &k})
 }
